@@ -287,6 +287,94 @@ mod inj {
             }
             lol_html_rewriter_free(r2);
             lol_html_selector_free(sel);
+            // user data on rewritable units: NULL at first, kept between handlers of one token,
+            // replaceable and resettable to NULL
+            {
+                unsafe extern "C" fn ud1(el: *mut Element, ud: *mut c_void) -> RewriterDirective {
+                    let m = unsafe { &*(ud as *const Mutex<State>) };
+                    unsafe {
+                        if !lol_html_element_user_data_get(el).is_null() {
+                            m.lock().unwrap().problems.push("element user data is not NULL initially".into());
+                        }
+                        lol_html_element_user_data_set(el, 0x1234 as *mut c_void);
+                        if lol_html_element_user_data_get(el) as usize != 0x1234 {
+                            m.lock().unwrap().problems.push("element user data not returned after set".into());
+                        }
+                    }
+                    RewriterDirective::Continue
+                }
+                unsafe extern "C" fn ud2(el: *mut Element, ud: *mut c_void) -> RewriterDirective {
+                    let m = unsafe { &*(ud as *const Mutex<State>) };
+                    unsafe {
+                        if lol_html_element_user_data_get(el) as usize != 0x1234 {
+                            m.lock().unwrap().problems.push("element user data set by the first handler is not seen by the second".into());
+                        }
+                        lol_html_element_user_data_set(el, std::ptr::null_mut());
+                        if !lol_html_element_user_data_get(el).is_null() {
+                            m.lock().unwrap().problems.push("element user data reset to NULL is still set".into());
+                        }
+                    }
+                    RewriterDirective::Continue
+                }
+                unsafe extern "C" fn ud3(el: *mut Element, ud: *mut c_void) -> RewriterDirective {
+                    let m = unsafe { &*(ud as *const Mutex<State>) };
+                    unsafe {
+                        if !lol_html_element_user_data_get(el).is_null() {
+                            m.lock().unwrap().problems.push("element user data is not NULL in the third handler after the reset".into());
+                        }
+                        lol_html_element_user_data_set(el, 0x42 as *mut c_void);
+                        if lol_html_element_user_data_get(el) as usize != 0x42 {
+                            m.lock().unwrap().problems.push("element user data cannot be replaced".into());
+                        }
+                    }
+                    RewriterDirective::Continue
+                }
+                unsafe extern "C" fn udc(c: *mut Comment, ud: *mut c_void) -> RewriterDirective {
+                    let m = unsafe { &*(ud as *const Mutex<State>) };
+                    unsafe {
+                        let cur = lol_html_comment_user_data_get(c) as usize;
+                        // first handler sees NULL and sets 7; second sees 7 and resets
+                        if cur == 0 {
+                            lol_html_comment_user_data_set(c, 7 as *mut c_void);
+                        } else if cur == 7 {
+                            lol_html_comment_user_data_set(c, std::ptr::null_mut());
+                            if !lol_html_comment_user_data_get(c).is_null() {
+                                m.lock().unwrap().problems.push("comment user data reset to NULL is still set".into());
+                            }
+                            m.lock().unwrap().drops += 100;
+                        } else {
+                            m.lock().unwrap().problems.push(format!("comment user data has the unexpected value {cur}"));
+                        }
+                    }
+                    RewriterDirective::Continue
+                }
+                let drops_before = st.lock().unwrap().drops;
+                let sels: Vec<*mut lol_html::Selector> = [&b"a"[..], b"*", b"a[b]"].iter().map(|x| lol_html_selector_parse(x.as_ptr() as *const c_char, x.len())).collect();
+                let builder = lol_html_rewriter_builder_new();
+                lol_html_rewriter_builder_add_element_content_handlers(builder, sels[0], Some(ud1), ud, Some(udc), ud, None, null);
+                lol_html_rewriter_builder_add_element_content_handlers(builder, sels[1], Some(ud2), ud, Some(udc), ud, None, null);
+                lol_html_rewriter_builder_add_element_content_handlers(builder, sels[2], Some(ud3), ud, None, null, None, null);
+                let r = lol_html_rewriter_build(builder, b"utf-8".as_ptr() as *const c_char, 5, lol_html::MemorySettings::new(), sink, ud, true);
+                let before = st.lock().unwrap().out.len();
+                let rc = lol_html_rewriter_write(r, doc.as_ptr() as *const c_char, doc.len());
+                let rc2 = lol_html_rewriter_end(r);
+                if rc != 0 || rc2 != 0 {
+                    st.lock().unwrap().problems.push(format!("user-data scenario: write/end failed: {:?}", take_last_error()));
+                }
+                {
+                    let mut g = st.lock().unwrap();
+                    if g.drops != drops_before + 100 {
+                        g.problems.push("comment user data set by the first handler was not seen by the second".into());
+                    }
+                    g.drops = drops_before;
+                    g.out.truncate(before);
+                }
+                lol_html_rewriter_free(r);
+                lol_html_rewriter_builder_free(builder);
+                for s in sels {
+                    lol_html_selector_free(s);
+                }
+            }
             // a handler that ignores a failing setter and then stops the rewriter: write() fails and
             // the last error is the rewriter's, not the stale setter error
             {
